@@ -99,6 +99,16 @@ func main() {
 	}
 	go func() {
 		time.Sleep(time.Duration(wd) * time.Second)
+		if c, _ := currentCall[func() int {
+			if id := simrt.CurTask(); id >= 0 {
+				return id % 64
+			}
+			return 0
+		}()].Load().(string); c == "" && os.Args[1] == "run" {
+			// not inside a library call: the harness's own work (oracle processes, the tie scan, the model) gets three
+			// periods before the run is handed back as slow
+			time.Sleep(time.Duration(2*wd) * time.Second)
+		}
 		id := simrt.CurTask()
 		if id < 0 {
 			id = 0
